@@ -314,6 +314,37 @@ def D2(all_cfg=True):
         for b in core:
             out.append({"t": "UntypedLabel", "ch": {"a": a, "b": b}})
             out.append({"t": "Branch", "ch": [a, b]})
+    out += D2_extra()
+    return out
+
+
+def D2_extra():
+    """Collections whose members read different fields (so that crossing members is observable), collections mixing a
+    Count(transform) with quantity-bearing members, and binning nodes with a non-Count aggregator in a flow slot."""
+    sx, sy = {"t": "Sum", "q": "x"}, {"t": "Sum", "q": "y"}
+    c2 = {"t": "Count", "tr": "sq"}
+    bx = {"t": "Bin", "p": BIN_CFG[0], "q": "x", "v": {"t": "Count"}}
+    by = {"t": "Bin", "p": BIN_CFG[0], "q": "y", "v": {"t": "Count"}}
+    out = [
+        {"t": "Label", "ch": {"a": sx, "b": sy}},
+        {"t": "UntypedLabel", "ch": {"a": sx, "b": sy}},
+        {"t": "Index", "ch": [sx, sy]},
+        {"t": "Branch", "ch": [sx, sy]},
+        {"t": "Label", "ch": {"p": bx, "e": by}},
+        {"t": "Index", "ch": [{"t": "Deviate", "q": "x"}, {"t": "Deviate", "q": "y"}]},
+        {"t": "Branch", "ch": [c2, sx]},
+        {"t": "Branch", "ch": [sx, c2]},
+        {"t": "UntypedLabel", "ch": {"a": bx, "b": c2}},
+        {"t": "UntypedLabel", "ch": {"a": c2, "b": {"t": "Average", "q": "x"}}},
+    ]
+    fy = {"t": "Sum", "q": "y"}
+    out += [
+        {"t": "Bin", "p": BIN_CFG[0], "q": "x", "v": {"t": "Count"}, "nf": fy},
+        {"t": "SparselyBin", "p": SPARSE_CFG[0], "q": "x", "v": {"t": "Count"}, "nf": {"t": "Minimize", "q": "y"}},
+        {"t": "CentrallyBin", "p": CENTRAL_CFG[0], "q": "x", "v": {"t": "Count"}, "nf": fy},
+        {"t": "IrregularlyBin", "p": IRR_CFG[0], "q": "x", "v": {"t": "Count"}, "nf": {"t": "Average", "q": "y"}},
+        {"t": "Stack", "p": STACK_CFG[0], "q": "x", "v": {"t": "Count"}, "nf": {"t": "Bag", "q": "y", "range": "N"}},
+    ]
     return out
 
 
@@ -412,4 +443,12 @@ def SP(maxdepth=3, leafset=None):
             s = dict(s)
             s["q"] = "x"
         fixed.append(s)
+    # single-path trees whose path goes through a flow slot: a non-Count aggregator in nanflow / underflow / overflow
+    fy = {"t": "Sum", "q": "y"}
+    for f in (fy, {"t": "Minimize", "q": "y"}, {"t": "Bag", "q": "y", "range": "N"}):
+        fixed.append({"t": "Bin", "p": BIN_CFG[0], "q": "x", "v": {"t": "Count"}, "nf": f, "uf": f, "of": f})
+        fixed.append({"t": "SparselyBin", "p": SPARSE_CFG[0], "q": "x", "v": {"t": "Count"}, "nf": f})
+        fixed.append({"t": "CentrallyBin", "p": CENTRAL_CFG[0], "q": "x", "v": {"t": "Count"}, "nf": f})
+        fixed.append({"t": "IrregularlyBin", "p": IRR_CFG[0], "q": "x", "v": {"t": "Count"}, "nf": f})
+        fixed.append({"t": "Stack", "p": STACK_CFG[0], "q": "x", "v": {"t": "Count"}, "nf": f})
     return fixed
